@@ -25,7 +25,7 @@ TRUSTED_BASE = [
     "the DIRECT ORACLE on the real code, not by a theorem: support predicate + catch_unwind over the single-word-adversarial lattice "
     "(DESIGN.md App. D) x parameter points of envelope E, and the exhaustive sweep of all 2^24 high-bit patterns of one word for "
     "every f32 sampler (harness/src/samp.rs: sweep, lat) in debug (overflow checks) and release builds",
-    "known findings F4 (Frechet), F5 (Exp1 tail), F6 (Zipf n=1) are listed in known_findings.json and matched by class",
+    "known findings F4 (Frechet), F11 (Gumbel), F6/F16 (Zipf), F15 are listed in known_findings.json and matched by class; F5 (Exp1 tail) is repaired (fix: bff3353) and listed as fixed",
 ]
 ASSUMPTIONS = ["events that need two or more specific words simultaneously are outside the quantifier",
                "documented infinite results (Exp rate 0, Gamma infinite parameter, Zeta s near 1, Geometric(0)) are not failures"]
